@@ -424,7 +424,10 @@ func runStraceCase(c *core.Case) *core.Result {
 	}
 	defer os.RemoveAll(dir)
 	r := c.R
-	sys := []string{"pwrite64", "fdatasync", "fsync", "mmap", "ftruncate", "fstat", "newfstatat", "flock", "openat"}[r.Intn(9)]
+	// flock itself is not failed: strace cannot restrict the injection to the
+	// acquiring calls, and a failing flock(LOCK_UN) leaves the lock held by
+	// construction (the unlock did not happen), which says nothing about txfile
+	sys := []string{"pwrite64", "fdatasync", "fsync", "mmap", "ftruncate", "fstat", "newfstatat", "openat"}[r.Intn(8)]
 	errno := []string{"ENOSPC", "EIO", "EACCES", "ENOMEM"}[r.Intn(4)]
 	when := 1 + r.Intn(6)
 	self, _ := os.Executable()
@@ -539,7 +542,7 @@ func init() {
 	core.Register(&core.Check{
 		ID:          "C18",
 		Level:       "exploration",
-		Rule:        "case = PRNG sequence of open / second open / open with wait flag / failing open (invalid options, both headers damaged, truncated file, out-of-range free-list and overwrite-map roots, too small max size, invalid max-size update, garbage page size, failing creation of a new file: invalid page size / preallocation refused) / close on one path of the real OS file system; oracle = while open a second Open fails with a lock error and an independent flock on <path>.lock fails; a waiting Open returns (logical clock) only after the first Close was called; after Close and after EVERY failed Open an independent TryLock succeeds immediately and a plain Open is not refused; thorough additionally runs a helper process under `strace -e inject=` failing pwrite/fsync/mmap/ftruncate/fstat/flock/openat during initialisation, followed by a fault-free Open in the same process; distinct = hash of step sequence; non-trivial = >=4 steps",
+		Rule:        "case = PRNG sequence of open / second open / open with wait flag / failing open (invalid options, both headers damaged, truncated file, out-of-range free-list and overwrite-map roots, too small max size, invalid max-size update, garbage page size, failing creation of a new file: invalid page size / preallocation refused) / close on one path of the real OS file system; oracle = while open a second Open fails with a lock error and an independent flock on <path>.lock fails; a waiting Open returns (logical clock) only after the first Close was called; after Close and after EVERY failed Open an independent TryLock succeeds immediately and a plain Open is not refused; thorough additionally runs a helper process under `strace -e inject=` failing pwrite/fsync/mmap/ftruncate/fstat/openat during initialisation, followed by a fault-free Open in the same process; distinct = hash of step sequence; non-trivial = >=4 steps",
 		Assumptions: []string{"advisory flock semantics of the sandbox's file system", "strace syscall injection (thorough tier) may hit the Go runtime instead of txfile: such runs are inconclusive"},
 		NumCases:    func(t string) int { return tierN(t, 200, 5300) },
 		Run: func(c *core.Case) *core.Result {
